@@ -24,6 +24,8 @@ RULE = (
     "1-3% loss runs in which ACK range sets grow and get pruned; non-trivial = a run in which at least one ACK frame with more "
     "than one range was checked and at least one timeliness obligation was met; distinct = hash(config, op multiset, fate multiset)."
 )
+RULE += " Late additions: many-ranges-burst with far-apart numbers (230-300 packets, 17 000-30 000 apart); rebind-while-window-full (server window exhausted, full-sized packets from a new client address); acknowledgements are owed on an unvalidated path while the monitor's own 3x ledger leaves room for an ACK-bearing packet (200 bytes)."
+
 ASSUMPTIONS = [
     "'delivered authentic' is decided by the independent tap (vf.refwire) at emission and by the simulator's delivery log",
     "timeliness is only demanded for packets the endpoint could open (observed at CryptoPair.decrypt_packet of that endpoint, not in "
